@@ -681,7 +681,7 @@ def opt_cause(f: str, data: bytes, o: Dict[str, Any]) -> str:
 
 # --------------------------------------------------------------------------- families
 BOUNDS = {
-    "quick": {"container_dev": 2, "png_patterns": 1, "png_lzw": False, "chain_preds": True, "small_direct": True},
+    "quick": {"container_dev": 3, "png_patterns": 2, "png_lzw": True, "chain_preds": True, "small_direct": True},
     "thorough": {"container_dev": 3, "png_patterns": 2, "png_lzw": True, "chain_preds": True, "small_direct": True},
 }
 PNG_GEOMS = [(c, w, b) for b in (8, 1) for c in (1, 3, 4) for w in (1, 2, 3, 5, 8, 9, 16)]
